@@ -488,7 +488,9 @@ func init() {
 }
 
 // ---- R19.7
-func ruleR197(p *Program, r *Report) {
+func ruleR197(p *Program, r *Report) { ruleFormatCodes(p, r, "R19.7") }
+
+func ruleFormatCodes(p *Program, r *Report, rule string) {
 	allowed := map[string]string{
 		"GetParameterFormatByIndex": "the protocol rule itself",
 		"writeUint16Array":          "serialises every code as it is",
@@ -521,7 +523,7 @@ func ruleR197(p *Program, r *Report) {
 		}
 	}
 	if len(work) < 3 {
-		r.Anchor("R19.7", "loads of BindPacket.paramFormats/resultFormats and GetResultFormats results")
+		r.Anchor(rule, "loads of BindPacket.paramFormats/resultFormats and GetResultFormats results")
 		return
 	}
 	for len(work) > 0 {
@@ -592,14 +594,14 @@ func ruleR197(p *Program, r *Report) {
 			n++
 			fn := ia.Parent()
 			if why, ok := allowed[fn.Name()]; ok {
-				r.OK("R19.7", fnName(fn), "format code read by index", p.Pos(ia.Pos()), why)
+				r.OK(rule, fnName(fn), "format code read by index", p.Pos(ia.Pos()), why)
 				continue
 			}
-			r.Bad("R19.7", fnName(fn), "format code read by index", p.Pos(ia.Pos()), "a Bind format-code slice is indexed directly by a column/parameter number: with a single code (meaning: all columns) only index 0 gets it, every later typed column is encoded in the wrong format")
+			r.Bad(rule, fnName(fn), "format code read by index", p.Pos(ia.Pos()), "a Bind format-code slice is indexed directly by a column/parameter number: with a single code (meaning: all columns) only index 0 gets it, every later typed column is encoded in the wrong format")
 		}
 	}
 	if n < 2 {
-		r.Bad("R19.7", "decryptor/postgresql", "format code reads", "-", fmt.Sprintf("%d indexed reads of format-code slices found, at least 2 confirmed by reading (GetParameterFormatByIndex, writeUint16Array)", n))
+		r.Bad(rule, "decryptor/postgresql", "format code reads", "-", fmt.Sprintf("%d indexed reads of format-code slices found, at least 2 confirmed by reading (GetParameterFormatByIndex, writeUint16Array)", n))
 	}
 }
 
